@@ -103,7 +103,9 @@ def _split_format(
     mspec = remove_custom_flags(spec)
     uspec = extract_custom_flags(spec)
 
-    default_mspec = remove_custom_flags(default)
+    # "#" (compact) is pint's own modifier: it is acted upon and stripped from the
+    # spec before this point and is not part of the magnitude format
+    default_mspec = remove_custom_flags(default).replace("#", "")
     default_uspec = extract_custom_flags(default)
 
     warns = []
